@@ -20,3 +20,63 @@ package record
 //@ func (*ColVal).IsNil
 //@   trusted reads the bitmap only
 //@   assigns nothing
+
+// ================================================================ C02 / C09: time-ordered merge kernels
+//@ prop C02 C09
+
+//@ spec func asc_from(t []int64, from int) bool = forall i int, j int :: from <= i && i < j && j < len(t) ==> t[i] < t[j]
+
+// First index (from startPos) whose time is >= startTime, in a strictly ascending column.
+//@ func GetTimeRangeStartIndex
+//@   requires 0 <= startPos && startPos <= len(times) && len(times) < 4611686018427387904 && asc_from(times, startPos)
+//@   ensures startPos <= result && result <= len(times)
+//@   ensures forall i int :: startPos <= i && i < result ==> times[i] < startTime
+//@   ensures forall i int :: result <= i && i < len(times) ==> times[i] >= startTime
+//@   assigns nothing
+//@   loop 1
+//@     invariant startPos <= start && start <= end + 1 && end < len(times)
+//@     invariant forall i int :: startPos <= i && i < start ==> times[i] < startTime
+//@     invariant forall i int :: end < i && i < len(times) ==> times[i] > startTime
+//@     decreases end - start + 1
+
+// Last index (from startPos) whose time is <= endTime, in a strictly ascending column (startPos-1 if none).
+//@ func GetTimeRangeEndIndex
+//@   requires 0 <= startPos && startPos <= len(times) && len(times) < 4611686018427387904 && asc_from(times, startPos)
+//@   ensures startPos - 1 <= result && result < len(times)
+//@   ensures forall i int :: startPos <= i && i <= result ==> times[i] <= endTime
+//@   ensures forall i int :: result < i && i < len(times) ==> times[i] > endTime
+//@   assigns nothing
+//@   loop 1
+//@     invariant startPos <= start && start <= end + 1 && end < len(times)
+//@     invariant forall i int :: startPos <= i && i < start ==> times[i] < endTime
+//@     invariant forall i int :: end < i && i < len(times) ==> times[i] > endTime
+//@     decreases end - start + 1
+
+//@ prop C02
+
+// Two-way merge in time order with new-over-old precedence:
+//  - a row of the older record is emitted alone only if it is strictly earlier (ascending) / later (descending)
+//    than the current row of the newer record, and vice versa;
+//  - rows with equal times are merged into one row, the newer record first;
+//  - no row is lost: if the row budget is not exhausted both inputs are fully consumed.
+//@ func (*Record).appendRecs
+//@   requires newRec != oldRec && limitRows > 0
+//@   requires 0 <= newStart && newStart <= newEnd && newEnd <= len(newTimeVals) && 0 <= oldStart && oldStart <= oldEnd && oldEnd <= len(oldTimeVals)
+//@   call (*Record).AppendRec
+//@     requires (newStart < newEnd && oldStart < oldEnd && arg0 == oldRec) ==> (arg1 == oldStart && arg2 == oldStart + 1 && (ascending ? oldTimeVals[oldStart] < newTimeVals[newStart] : newTimeVals[newStart] < oldTimeVals[oldStart]))
+//@     requires (newStart < newEnd && oldStart < oldEnd && arg0 == newRec) ==> (arg1 == newStart && arg2 == newStart + 1 && (ascending ? newTimeVals[newStart] < oldTimeVals[oldStart] : oldTimeVals[oldStart] < newTimeVals[newStart]))
+//@     requires arg0 == oldRec || arg0 == newRec
+//@     requires !(newStart < newEnd && oldStart < oldEnd) ==> ((arg0 == newRec ==> arg1 == newStart && arg2 <= newEnd && newStart < arg2) && (arg0 == oldRec ==> arg1 == oldStart && arg2 <= oldEnd && oldStart < arg2))
+//@   call (*Record).mergeRecRow
+//@     requires arg0 == newRec && arg1 == oldRec && arg2 == newStart && arg3 == oldStart && newStart < newEnd && oldStart < oldEnd && newTimeVals[newStart] == oldTimeVals[oldStart]
+//@   ensures result0 >= 0 && old(newStart) <= result1 && result1 <= newEnd && old(oldStart) <= result2 && result2 <= oldEnd
+//@   ensures result0 > 0 ==> result1 == newEnd && result2 == oldEnd
+//@   loop 1
+//@     invariant limitRows > 0 && old(newStart) <= newStart && newStart <= newEnd && old(oldStart) <= oldStart && oldStart <= oldEnd
+//@   loop 2
+//@     invariant limitRows > 0 && old(newStart) <= newStart && newStart <= newEnd && old(oldStart) <= oldStart && oldStart <= oldEnd
+
+// Equal timestamps must keep their arrival order while sorting (later write wins in the de-duplication).
+//@ func (*ColumnSortHelper).Sort
+//@   call sort.Stable
+//@     requires true
